@@ -165,7 +165,10 @@ class Impl:
         for c in sorted(self.socks):
             s = self.socks[c]
             pk = getattr(self, 'parked_kind', {}).get(c) if c in getattr(self, 'waiters', {}) else None
-            conns[c] = dict(parked='-' if pk is None else pk + ('!' if self.waiters[c]['notified'] else ''),
+            if getattr(s, '_paused', False) and hasattr(self, 'loop'):
+                pk = getattr(self, 'parked_kind', {}).get(c, 'blocked')
+            conns[c] = dict(parked='-' if pk is None else pk + ('!' if c in getattr(self, 'waiters', {}) and self.waiters[c]['notified'] else ''),
+                            paused=bool(getattr(s, '_paused', False)),
                             db=s._db_num, tx='-' if s._transaction is None else str(len(s._transaction)),
                             failed=s._transaction_failed, wn=s._watch_notified,
                             watch=sorted({'%d/%s' % (dbidx[id(d)], k.hex()) for (k, d) in s._watches}),
@@ -194,7 +197,7 @@ def render_snapshot(st):
     for c, x in sorted(st['conns'].items()):
         parts.append('c%d{db=%d,tx=%s,failed=%s,wn=%s,watch=%s,pubsub=%d,closed=%s,dead=%s,parked=%s}' % (
             c, x['db'], x['tx'], b(x['failed']), b(x['wn']), '+'.join(x['watch']), x['pubsub'], b(x['closed']), b(x['dead']),
-            x.get('parked', '-')))
+            x.get('parked', '-') + (',paused' if x.get('paused') else '')))
     parts.append('lastsave=%d' % st['lastsave'])
     parts.append('connected=%s' % b(st['connected']))
     return 'S ' + ' '.join(parts)
